@@ -761,6 +761,16 @@ def check_slash_plumbing(rep, rule):
             ds_, clean_ = defs_.of(s_.targets[0].id)
             if clean_ and len(ds_) == 1:
                 flag_names.add(s_.targets[0].id)
+    grew_ = True
+    while grew_:          # plain copies of the flag (``inherit = opts_inherit_slashes``)
+        grew_ = False
+        for s_ in stmts_of(bi.node):
+            if isinstance(s_, ast.Assign) and len(s_.targets) == 1 and isinstance(s_.targets[0], ast.Name) and isinstance(s_.value, ast.Name) and \
+                    s_.value.id in flag_names and s_.targets[0].id not in flag_names:
+                ds_, clean_ = defs_.of(s_.targets[0].id)
+                if clean_ and len(ds_) == 1:
+                    flag_names.add(s_.targets[0].id)
+                    grew_ = True
     inh = lambda t: (isinstance(t, ast.Name) and t.id in flag_names) or is_pop(t)
     want = {True: '%s.slash_mode' % bi.params()[2], False: '%s.slash_mode' % bi.params()[1]}
     ok = len(alts) == 2 and all(any(norm(v) == want[pol] and has_cond(cs, inh, pol) for v, cs in alts) for pol in (True, False))
